@@ -409,7 +409,7 @@ def run(scenario):
     for l in w.logs:
         if 'Invalid DH group used' in l[3]:
             reach['invalid_ke_judged'] = reach.get('invalid_ke_judged', 0) + 1
-    judged = reach.get('ike_init_judged', 0) + reach.get('child_judged', 0) + reach.get('ike_rekey_judged', 0)
+    judged = reach.get('ike_init_judged', 0) + reach.get('child_judged', 0) + reach.get('ike_rekey_judged', 0) + reach.get('installed_suites_compared', 0) * bool(scenario.get('refpeer'))
     st = workload.base_stats(w, ctx['cov'], {'reach': reach, 'nontrivial': judged >= 3})
     import hashlib
     st['sig'] = hashlib.sha256(repr((configs.suite_signature(scenario['nodes']['A']['conf']), configs.suite_signature((scenario.get('refpeer') or scenario['nodes'].get('B'))['conf']),
